@@ -23,9 +23,27 @@ def prepare():
 
 
 # ---------------------------------------------------------------------------------------------- (i) monitor
-def graph_violations(objs, universe_objs=None):
-    """Return list of (clause, description) for the calculation graph of the values held by `objs`."""
+def holder_roles(sim):
+    """{id(value): role} of the values a simulation put in place (while switched on)."""
+    roles = {}
+    if sim is None:
+        return roles
+    for v in getattr(sim, "replaced_ancestors_copies", []):
+        roles[id(v)] = "copy"
+    for v in getattr(sim, "filtered_hourly_quantities", []):
+        roles[id(v)] = "filtered"
+    for v in getattr(sim, "recomputed_values", []):
+        for x in (list(v.values()) if isinstance(v, dict) else [v]):
+            roles[id(x)] = "recomputed"
+    for ch in getattr(sim, "changes_list", []):
+        roles[id(ch[1])] = "new-input"
+    return roles
+
+
+def graph_violations(objs, universe_objs=None, roles=None):
+    """Return list of (clause, where, other end[, role of the holder]) for the calculation graph of the values held by `objs`."""
     out = []
+    roles = roles or {}
     held = list(S.held_values(objs))
     held_ids = {id(v) for _, _, _, v in held}
     if universe_objs is not None:
@@ -35,13 +53,13 @@ def graph_violations(objs, universe_objs=None):
         for a in v.direct_ancestors_with_id:
             d = S.describe_value(a)
             if d.startswith("DETACHED") or d.startswith("SUPERSEDED"):
-                out.append(("ancestor-not-held", where, d))
+                out.append(("ancestor-not-held", where, d, roles.get(id(v), "other")))
             elif not any(c is v for c in a.direct_children_with_id):
                 out.append(("ancestor-without-back-link", where, d))
         for c in v.direct_children_with_id:
             d = S.describe_value(c)
             if d.startswith("DETACHED") or d.startswith("SUPERSEDED"):
-                out.append(("child-not-held", where, d))
+                out.append(("child-not-held", where, d, roles.get(id(v), "other")))
             elif not any(a is v for a in c.direct_ancestors_with_id):
                 out.append(("child-without-back-link", where, d))
     # cycles (DFS over children, by identity)
@@ -111,10 +129,14 @@ def run_state_task(task):
     universe = list(m.objs.values())
     lc = engine.letter_class(letter, w)
     seen = set()
-    for clause, where, d in graph_violations(objs, universe):
+    roles = holder_roles(m.sim) if mode == "on" else {}
+    for item in graph_violations(objs, universe, roles):
+        clause, where, d = item[0], item[1], item[2]
         target = d.split("(")[0] if "(" in d else "held"
         tgt_where = d[d.find("(") + 1:].split(":")[0] if d.startswith("SUPERSEDED") else ""
         sig = {"clause": clause, "where": where, "mode": mode, "letter": lc, "other": target + (":" + tgt_where if tgt_where else "")}
+        if mode == "on":
+            sig["holder"] = item[3] if len(item) > 3 else "other"
         key = json.dumps(sig, sort_keys=True)
         if key in seen:
             continue
